@@ -110,6 +110,12 @@ def run_case(case) -> list:
             from krrood.entity_query_language.entity import exists
             d = let(D, [D(-99)], name="d")
             head = [exists(d, d.v == x.a)] + head
+        elif case.get("quant") is not None:
+            # a quantified conjunct in the base rule that is false for SOME elements: exists d. d.v == x.a over the
+            # domain {quant, .., 3}, i.e. x.a >= quant for the attribute values the generator uses (-1..3)
+            from krrood.entity_query_language.entity import exists
+            d = let(D, [D(v) for v in range(case["quant"], 4)], name="d")
+            head = [exists(d, d.v == x.a)] + head
         q = an(entity(views, *head))
 
         def body(rule):
@@ -208,6 +214,11 @@ def snippet(case) -> str:
         lines.append("@dataclass(eq=False)\nclass D:\n    v: int")
         lines.append("d = let(D, [D(-99)], name='d')  # the base rule starts with an exists(...) that holds nowhere")
         lines.append(f"q = an(entity(views, exists(d, d.v == x.a), {conds(case['prog'])}))")
+    elif case.get("quant") is not None:
+        lines.append("from krrood.entity_query_language.entity import exists")
+        lines.append("@dataclass(eq=False)\nclass D:\n    v: int")
+        lines.append(f"d = let(D, [D(v) for v in range({case['quant']}, 4)], name='d')  # exists d. d.v == x.a  <=>  x.a >= {case['quant']} (values are -1..3)")
+        lines.append(f"q = an(entity(views, exists(d, d.v == x.a), {conds(case['prog'])}))")
     else:
         lines.append(f"q = an(entity(views, {conds(case['prog'])}))")
     def body(r, ind):
@@ -265,7 +276,40 @@ def coq_prog(case):
         d["conds"] = UNSAT
         d.pop("form", None)
         return d
+    if case.get("quant") is not None:
+        d = dict(case["prog"])
+        d["conds"] = [[0, 5, 0, case["quant"]]] + d["conds"]      # x.a >= quant and the written conditions
+        d.pop("form", None)
+        return d
     return case["prog"]
+
+
+def quant_defect_prog(case):
+    """open finding C08-l (cause: C01-j, exists/for_all never yield a false result): for an element for which the
+    quantified conjunct of the base rule is false the base rule yields NO row, so no alternative of the top-level chain is
+    ever tried for it; the next_rules of the chain are (second pass of Next).  For those elements the implementation
+    behaves like this program: base rule and every alternative of the top-level chain can never hold."""
+    d = json.loads(json.dumps(case["prog"]))
+    d["conds"] = UNSAT
+    d.pop("form", None)
+
+    def chain(r):
+        for k, sub in r["body"]:
+            if k in "AN":
+                if k == "A":
+                    sub["conds"] = UNSAT
+                    sub.pop("form", None)
+                chain(sub)
+
+    chain(d)
+    return d
+
+
+def quant_predicted(case, spec_full, spec_defect):
+    """the recorded defect behaviour: the Spec where the quantified conjunct holds, [quant_defect_prog] where it does not"""
+    t = case["quant"]
+    holds = [a >= t for a, _b in case["world"]]
+    return sorted([list(r) for r in spec_full if holds[r[1]]] + [list(r) for r in spec_defect if not holds[r[1]]])
 
 
 def rule_term(r) -> str:
@@ -665,6 +709,22 @@ def gen_case_empty_join(rng, good):
     return c
 
 
+def gen_case_quant(rng, good):
+    """a base rule with a quantified conjunct that is false for some elements, and a top-level chain with an alternative"""
+    while True:
+        c = gen_case(rng, good, 5)
+        c.pop("stages", None)
+        c.pop("mid_evals", None)
+        if c.get("forms") or not c["prog"]["body"] or len(c["world"]) < 2:
+            continue
+        kinds = [k for k, _ in c["prog"]["body"]]
+        if "A" not in kinds:
+            i = rng.randint(0, len(kinds) - 1)
+            c["prog"]["body"][i][0] = "A"
+        c["quant"] = rng.randint(0, 3)
+        return c
+
+
 def all_forests(n):
     if n == 0:
         yield []
@@ -755,6 +815,7 @@ CLASS_TEXT = {
     "K_surgery": "the tree built by refinement()/alternative()/next_rule() is not the written one (C08-a/b/c/f, repaired by /repo 4511011: no open finding)",
     "K_next": "programs with next_rule outside the ordered fragments Fx: inside C08_rules_next_all (set of instances, next_rule anywhere); C08-d/e/g repaired by /repo 35fa150, 6dfdafd: no open finding; compared with model and Spec (as multisets)",
     "K_leafflag": "a branch whose whole condition is a single predicate (HasType) never sets `_is_false_`; an Alternative chained to it reads the stale flag (C08-k); narrow match: the same program with that condition written as a comparator agrees with the Spec",
+    "K_quant_base_alt": "the base rule has a quantified conjunct (exists) that is false for some elements: it yields no row for them, so no alternative of the top-level chain is tried (C08-l, cause C01-j); python-level class rule: case carries `quant`; tolerated only when the output equals the Spec where the conjunct holds and the Spec of [quant_defect_prog] where it does not",
     "U_unsettled": "next_rule written in the level of a later sibling refinement: reading not settled by the property text; compared with the model only",
 }
 
@@ -976,7 +1037,7 @@ def run(tier: str, seed: int, replay=None) -> int:
             cases.append(replay["case"])
             origin.append("replay")
     else:
-        stale_open = {f.witness for f in findings if f.kind == "open" and f.cls in ("K_stale_parent", "K_leafflag")}
+        stale_open = {f.witness for f in findings if f.kind == "open" and f.cls in ("K_stale_parent", "K_leafflag", "K_quant_base_alt")}
         for p in sorted(corpus_dir.glob("*.json")):
             if p.name.startswith("_") or f"corpus/{PROP}/{p.name}" in stale_open:
                 continue          # (the witness of the open finding C08-j is replayed with its own narrow match below)
@@ -1014,6 +1075,10 @@ def run(tier: str, seed: int, replay=None) -> int:
         for _ in range(150 if tier == "quick" else 2000):
             cases.append(gen_case_empty_join(rng6, good))
             origin.append("random")
+        rng7 = core.Rng(seed).fork(33)
+        for _ in range(120 if tier == "quick" else 1500):
+            cases.append(gen_case_quant(rng7, good))
+            origin.append("random")
         if tier == "thorough":
             rng2 = core.Rng(seed).fork(88)
             for n in range(0, 5):
@@ -1041,6 +1106,7 @@ def run(tier: str, seed: int, replay=None) -> int:
     bad = []
     model_bad = []
     pending_forms = []
+    pending_quant = []
     for c, org, (impl, m, s, fr) in zip(cases, origin, results):
         key = json.dumps(c, sort_keys=True)
         nb = n_branches(c["prog"])
@@ -1065,6 +1131,10 @@ def run(tier: str, seed: int, replay=None) -> int:
         s_ok = spec_matches(impl, s)
         dist["other_condition_forms"] = dist.get("other_condition_forms", 0) + (1 if c.get("forms") else 0)
         dist["base_rule_without_rows"] = dist.get("base_rule_without_rows", 0) + (1 if c.get("empty_join") else 0)
+        dist["quantified_conjunct_in_base_rule"] = dist.get("quantified_conjunct_in_base_rule", 0) + (1 if c.get("quant") is not None else 0)
+        if model_ok and not s_ok and c.get("quant") is not None and case_class(fr) != "U_unsettled":
+            pending_quant.append((c, org, impl, m, s, fr))
+            continue
         if model_ok and not s_ok and c.get("forms") and "K_leafflag" in open_classes and has_form(c, 1) \
                 and case_class(fr) != "U_unsettled":
             pending_forms.append((c, org, impl, m, s, fr))
@@ -1110,6 +1180,17 @@ def run(tier: str, seed: int, replay=None) -> int:
                 inst["K_leafflag"] = inst.get("K_leafflag", 0) + 1
             else:
                 bad.append((c, org, impl, m, s, fr, "a condition written as a predicate: differs from the Spec also when written as a comparator"))
+
+    # ---- open finding C08-l: tolerated only when the output is exactly the recorded defect behaviour
+    if pending_quant:
+        sdef = core.coq_values(PROP, HEADER_SPEC, [f"spec_sx {rule_term(quant_defect_prog(c))} {world_term(c['world'])}"
+                                                   for c, *_ in pending_quant], chunk=240, tag=f"valsq{os.getpid()}")
+        for (c, org, impl, m, s, fr), sd in zip(pending_quant, sdef):
+            if "K_quant_base_alt" in open_classes and impl[0] == 0 and not impl[2] \
+                    and sorted(impl[1]) == quant_predicted(c, s, sd):
+                inst["K_quant_base_alt"] = inst.get("K_quant_base_alt", 0) + 1
+            else:
+                bad.append((c, org, impl, m, s, fr, "quantified conjunct in the base rule: neither the Spec nor the recorded behaviour of the open finding C08-l"))
 
     # ---- two-variable programs: implementation vs Spec only
     try:
@@ -1203,6 +1284,17 @@ def run(tier: str, seed: int, replay=None) -> int:
             rep.oblige(f"finding:{f.fid}", False, f"cannot replay {f.witness}: {e}")
             continue
         fails = not spec_matches(impl, s)
+        if f.kind == "open" and f.cls == "K_quant_base_alt":
+            (sd,) = core.coq_values(PROP, HEADER_SPEC, [f"spec_sx {rule_term(quant_defect_prog(d['case']))} {world_term(d['case']['world'])}"],
+                                    chunk=240, tag=f"valsq{os.getpid()}")
+            if fails and impl == d.get("impl", impl) and impl[0] == 0 and sorted(impl[1]) == quant_predicted(d["case"], s, sd):
+                rep.known(f)
+            elif fails:
+                rep.violation({"kind": "counterexample", "case": d["case"], "impl": impl, "spec": sorted(s),
+                               "why": f"witness of {f.fid} fails differently from what was recorded", "python": snippet(d["case"])})
+            else:
+                rep.note(f"known finding {f.fid} no longer reproduces on its witness")
+            continue
         if f.kind == "open" and f.cls == "K_leafflag":
             (impl0,) = run_impl_bulk([strip_forms(d["case"])])
             if fails and spec_matches(impl0, s) and impl == d.get("impl", impl):
